@@ -923,6 +923,13 @@ func init() {
 			r.RequireMin("VALIDALL success returns of the picture processor", va, 1)
 			ngt := runNUMGATE(c, r, "NUMGATE")
 			r.RequireMin("NUMGATE ParseFloat calls in $number", ngt, 1)
+			var nf []*ssa.Function
+			for _, f := range libFuncsIn(c, c.REval) {
+				if f.Pkg != nil && (f.Pkg.Pkg.Name() == "jlib" || f.Pkg.Pkg.Name() == "jxpath") {
+					nf = append(nf, f)
+				}
+			}
+			runHALFADD(c, r, "HALFADD", nf)
 			fb := runF2I(c, r, "F2I", withCallees(c, c.fnsNamed(r, "jlib.FormatBase"), 2))
 			r.RequireMin("F2I float-to-integer conversions in $formatBase", fb, 2)
 			e := newFIN(c, c.G)
